@@ -140,6 +140,16 @@ pub fn update_fields(u: u8) -> BTreeMap<String, Fv> {
         13 => {
             m.insert("codes".into(), Fv::Array(vec![]));
         }
+        14 => {
+            // map-keyed indexed field: replace the key set
+            let mut map = BTreeMap::new();
+            map.insert(anda_db::schema::FieldKey::Text("kz".into()), Fv::U64(1));
+            map.insert(anda_db::schema::FieldKey::Text("ka".into()), Fv::U64(2));
+            m.insert("attrs".into(), Fv::Map(map));
+        }
+        15 => {
+            m.insert("attrs".into(), Fv::Map(BTreeMap::new()));
+        }
         _ => panic!("no update template {u}"),
     }
     m
@@ -169,6 +179,15 @@ pub fn apply_update(d: &VDoc, u: u8) -> VDoc {
                     .map(|v| match v {
                         Fv::Text(s) => s,
                         _ => unreachable!(),
+                    })
+                    .collect()
+            }
+            ("attrs", Fv::Map(map)) => {
+                d.attrs = map
+                    .into_iter()
+                    .map(|(k, v)| match (k, v) {
+                        (anda_db::schema::FieldKey::Text(k), Fv::U64(v)) => (k, v),
+                        other => panic!("apply_update attrs: {other:?}"),
                     })
                     .collect()
             }
